@@ -163,6 +163,39 @@ pub fn reg_wild() -> impl Strategy<Value = MReg> {
     .prop_map(|types| MReg { types })
 }
 
+/// large registries of tiny entries: sizes on both sides of 64, 4096 and 16384 entries and a few
+/// arbitrary ones up to 20000 (length prefixes in the second and third compact class)
+pub fn reg_large() -> impl Strategy<Value = MReg> {
+    (
+        prop_oneof![
+            3 => prop::sample::select(vec![63usize, 64, 65, 255, 256, 257, 1023, 1024, 4095, 4096, 4097, 8191, 8192, 8193, 16383, 16384, 16385]),
+            2 => 66usize..2000,
+            1 => 2000usize..20000,
+        ],
+        any::<bool>(),
+        0u32..3,
+        string(),
+    )
+        .prop_map(|(n, dense, off, s)| MReg {
+            types: (0..n)
+                .map(|k| MPType {
+                    id: if dense { k as u32 } else { (k as u32).wrapping_mul(3).wrapping_add(off) },
+                    ty: MType {
+                        path: if k % 97 == 5 { vec![s.clone()] } else { vec![] },
+                        params: vec![],
+                        def: match k % 4 {
+                            0 => MDef::Primitive(ALL_PRIMS[k % 15]),
+                            1 => MDef::Sequence(if dense { (k as u32).saturating_sub(1) } else { k as u32 }),
+                            2 => MDef::Tuple(vec![]),
+                            _ => MDef::Compact(0),
+                        },
+                        docs: vec![],
+                    },
+                })
+                .collect(),
+        })
+}
+
 /// well-formed registries: id == index, references < n, with cycles, self loops and nodes that
 /// are reachable only through params (all arise naturally from uniformly random references)
 pub fn reg_wf(max: usize) -> impl Strategy<Value = MReg> {
